@@ -16,10 +16,11 @@ impl<T: ArrayElement + FromStr> FromStr for List<T>
 
     fn from_str(s: &str) -> Result<Self, Self::Err> {
         let s = s
-            .trim_start_matches('(')
-            .trim_end_matches(')')
+            .trim_start_matches(['(', '['])
+            .trim_end_matches([')', ']'])
             .replace(", ", ",");
         let mut items = vec![];
+        if s.is_empty() { return Ok(Self(items)) }
         for item in s.split(',') {
             let item = T::from_str(item);
             if item.is_err() {
